@@ -55,6 +55,10 @@ structure Params where
   ldLenBits : Nat
   ldReadLo : Nat           -- ReadLenData refuses length < ldReadLo (0: no guard)
   ldReadSub : Nat          -- `make([]byte, length - ldReadSub)`
+  ldWriteAdd : Nat         -- WriteLenData: length = len(data) + ldWriteAdd
+  ldWriteHi : Nat          -- WriteLenData refuses length > ldWriteHi
+  ldWriteHeader : Nat      -- WriteLenData: size of the length prefix it writes
+  ldRetAdd : Nat           -- WriteLenData returns len(data) + ldRetAdd
   nilBodyEncodes : Bool    -- BodyToBytes has a `case nil` (D8, owned by C07); otherwise it panics
 deriving Repr, DecidableEq
 
@@ -206,7 +210,7 @@ def buildHeader (F : Fmt) (p : Pkt) (nref nbytes : Nat) (refsB body : Bytes) : O
   match packFields (packVal p nref nbytes) F.pack (zeros F.headerSize) with
   | none => none
   | some h0 =>
-    let crc := crc32 (h0.take F.crcCover ++ refsB ++ body)
+    let crc := crc32T (h0.take F.crcCover ++ refsB ++ body)
     putAt h0 F.setCrc.1 (bePut F.setCrc.2 crc.toNat)
 
 /-- `WritePacket` of either format (`F.v2` selects the reference handling) -/
@@ -277,7 +281,7 @@ def readHeadBody (F : Fmt) (cs : Chunks) : HB :=
 def readRefs : Nat → Bytes → Option (List (BitVec 32))
   | 0, _ => some []
   | n + 1, bs =>
-    if bs.length < 4 then none else
+    if (bs.take 4).length < 4 then none else   -- fewer than four bytes left (without walking the whole list)
     match readRefs n (bs.drop 4) with
     | some rs => some (BitVec.ofNat 32 (beGet (bs.take 4)) :: rs)
     | none => none
@@ -310,7 +314,7 @@ def unmarshal (P : Params) (F : Fmt) (e : Env) (hdr payload : Bytes) : Except Er
     | some (typ, node, nref) =>
       let p0 : Pkt := { cmd := BitVec.ofNat 32 cmd, seq := BitVec.ofNat 16 seq, typ := BitVec.ofNat 8 typ,
                         flag := BitVec.ofNat 8 flag, node := BitVec.ofNat 32 node, refs := [], body := .absent }
-      if (crc32 (hdr.take F.crcCover ++ payload)).toNat ≠ crc then .error .crc
+      if (crc32T (hdr.take F.crcCover ++ payload)).toNat ≠ crc then .error .crc
       else unmarshalPayload P e F.bodyStepOnFlags p0 nref payload
   | _, _, _, _ => .error .panicIndex
 
@@ -345,6 +349,19 @@ def readLenData (P : Params) (cs : Chunks) : LdOut :=
     | (.error er, r') => ⟨.error er, r', [n], [P.ldHeader, n]⟩
     | (.ok d, r') => ⟨.ok d, r', [n], [P.ldHeader, n]⟩
 
+structure LdWr where
+  writes : List Bytes          -- the `w.Write` calls, in order
+  ret : Except Err Nat
+
+def LdWr.bytes (o : LdWr) : Bytes := o.writes.flatten
+
+/-- `WriteLenData`: the length prefix counts itself; the value returned on success is
+    `len(data) + ldRetAdd` (in the source: `n + 4` after writing `n + 2` bytes) -/
+def writeLenData (P : Params) (data : Bytes) : LdWr :=
+  let length := data.length + P.ldWriteAdd
+  if length > P.ldWriteHi then ⟨[], .error .overflow⟩
+  else ⟨[bePut P.ldWriteHeader length, data], .ok (data.length + P.ldRetAdd)⟩
+
 /-! ### concrete varints for the driver (`encoding/binary`); the theorems take them as parameters -/
 
 def putUvarint (fuel : Nat) (u : Nat) : Bytes :=
@@ -370,5 +387,19 @@ def uvarintAux : Nat → Nat → Nat → Bytes → Nat
 def varint64 (bs : Bytes) : Int :=
   let u := uvarintAux 0 0 0 bs
   if u % 2 = 1 then -((u / 2 : Nat) : Int) - 1 else ((u / 2 : Nat) : Int)
+
+/-! ### the toy cipher of the correspondence run (the Go harness has the same one: `hxcodec.Toy`);
+`Props/C01.lean` proves it lawful for every key -/
+
+/-- byte `i` is shifted by `key[i mod |key|] + i` (mod 256); decryption shifts back -/
+def toyStep (key : Array UInt8) (encrypt : Bool) (i : Nat) (b : UInt8) : UInt8 :=
+  let k := key[i % key.size]! + UInt8.ofNat (i % 256)
+  if encrypt then b + k else b - k
+
+def toyGo (key : Array UInt8) (encrypt : Bool) : Nat → Bytes → Bytes → Bytes
+  | _, [], acc => acc.reverse
+  | i, b :: bs, acc => toyGo key encrypt (i + 1) bs (toyStep key encrypt i b :: acc)
+
+def toy (key : Bytes) (encrypt : Bool) (bs : Bytes) : Bytes := toyGo key.toArray encrypt 0 bs []
 
 end Fatchoy.Codec
